@@ -84,7 +84,8 @@ func C12(ctx *core.Ctx) {
 	ctx.Rule("C12.R4", "response-side conversion: SendReply → trapError → APPLICATION_EXCEPTION_RESPONSE_TOO_LARGE → client RESPONSE_TOO_LARGE; HTTP 413 both ways; IsErrTooLarge knows both kinds", 9)
 	ctx.Rule("C12.R5", "limit wiring: client buffer limit = transport's GetRequestSizeLimit/GetPublishSizeLimit; Reset restores the frame prefix through the guarded Write", 4)
 
-	cfg := &bounds.Config{IntBits: 64, AssumeLenI32: true}
+	cfg := &bounds.Config{IntBits: IntBits(), AssumeLenI32: true, Ideal: true}
+	ctx.Assume("guard equivalences are decided over the mathematical integers (buffer lengths far below the int range)")
 	pr := bounds.New(cfg)
 
 	// ---- R1 -------------------------------------------------------------------------
